@@ -3,6 +3,7 @@ package harness
 import (
 	"crypto/sha256"
 	"encoding/hex"
+	"encoding/json"
 	"fmt"
 	tmtypes "github.com/tendermint/tendermint/types"
 	"math/big"
@@ -663,9 +664,9 @@ func (w *World) harvestPacket(attrs []abciAttr, ack bool) {
 	for _, a := range attrs {
 		switch string(a.Key) {
 		case "src_chain":
-			src = strings.Trim(string(a.Value), "\"")
+			src = attrString(a.Value)
 		case "dst_chain":
-			dst = strings.Trim(string(a.Value), "\"")
+			dst = attrString(a.Value)
 		case "sequence":
 			seqs = strings.Trim(string(a.Value), "\"")
 		case "packet":
@@ -687,6 +688,15 @@ func (w *World) harvestPacket(attrs []abciAttr, ack bool) {
 		h := sha256.Sum256(pkt)
 		w.SentHash[hex.EncodeToString(h[:])] = k
 	}
+}
+
+// attrString: the value of a typed-event attribute holding a string (JSON: <, > and & arrive as \u003c ...)
+func attrString(v []byte) string {
+	var s string
+	if json.Unmarshal(v, &s) == nil {
+		return s
+	}
+	return strings.Trim(string(v), "\"")
 }
 
 // RecvSpec / AckSpec describe a relayer message derived from a sent packet and an alteration.
